@@ -19,7 +19,7 @@ _probe = None
 
 
 def probe_fixes():
-    """Which of the fixes proposed by this group does the tree under test contain?  Four tiny programs
+    """Which of the fixes proposed by this group does the tree under test contain?  Five tiny programs
     are compiled; the answer is handed to TLC through the environment so that the ALGORITHM MODELS
     (never the rules) follow the tree.  Returns a dict of environment variables."""
     global _probe
@@ -30,6 +30,8 @@ def probe_fixes():
         {"kind": ["c", "s"], "val": [[2, 1], [2, 2]], "ptr": [], "perm": [1, 2]},            # E415, not E416
         {"kind": ["c", "s"], "val": [[2, 1]], "ptr": [[1, 2]], "perm": [1, 2]},              # |:&S| accepted
         {"kind": ["s", "s", "s"], "val": [[1, 2], [2, 1]], "ptr": [[3, 1]], "perm": [1, 2, 3]},  # no panic
+        # C1 = 1 + |:&[2]S2| (Containers.tla: Flavour(1, 2) = 2 for three declarations), S2 { v1: [2][C1]i32 }: accepted
+        {"kind": ["c", "s", "f"], "val": [[2, 1]], "ptr": [[1, 2]], "perm": [1, 2, 3]},
     ]
     cells = [{"fam": "type", "ty": ["arr", "like", "bool"], "pos": "var", "aux": []}]        # [3][]bool rejected
     gp, go = os.path.join(common.WORK, "modules-probe-g.ndjson"), os.path.join(common.WORK, "modules-probe-g.out")
@@ -44,6 +46,7 @@ def probe_fixes():
         "PENNE_FIXED_E416": any(code == 415 for code, _ in g[0]["diags"]) and not any(code == 416 for code, _ in g[0]["diags"]),
         "PENNE_FIXED_SIZEOF_PTR": bool(g[1]["ok"]),
         "PENNE_FIXED_PTR_UNFOUNDED": not g[2].get("panic"),
+        "PENNE_FIXED_SIZEOF_PTR_ARRAY": bool(g[3]["ok"]),
         "PENNE_FIXED_LIKE_ELEMENT": not c[0]["ok"] and not c[0].get("panic"),
     }
     _probe = {k: ("1" if v else "0") for k, v in fixed.items()}
